@@ -34,6 +34,15 @@ int main(int argc, char **argv) {
         "ffffffffffffffffffffffffffffffff00000000000000000000000000000000", "00000000000000000000000000000000ffffffffffffffffffffffffffffff7f" };
     int ns = (int) (sizeof special / sizeof special[0]);
     for (int i = 0; i < ns; i++) { hexto(special[i], u); vrng_bytes(&R, k, 32); rec_sm(k, u); if (i < 12) { u[31] ^= 0x80; rec_sm(k, u); } }
+    /* neighbours of the 12 refused encodings: one bit away (bit 7 of a byte 0..30 - what a byte-wise "ignore the top bit" mask would
+     * swallow - and a random other bit): none of them is low order, all must be multiplied like any other point.  With many random
+     * pairs (thorough tier): bit 7 of EVERY byte 0..30 of every encoding. */
+    for (int i = 0; i < 12; i++) {
+        if (nrand > 1000) { for (int j = 0; j < 31; j++) { hexto(special[i], u); u[j] ^= 0x80; vrng_bytes(&R, k, 32); rec_sm(k, u); } }
+        else { hexto(special[i], u); u[vrng_below(&R, 31)] ^= 0x80; vrng_bytes(&R, k, 32); rec_sm(k, u); }
+        hexto(special[i], u); { int bit = (int) vrng_below(&R, 255); if ((bit & 7) == 7) bit--; u[bit >> 3] ^= (unsigned char) (1u << (bit & 7)); } vrng_bytes(&R, k, 32); rec_sm(k, u);
+        hexto(special[i], u); u[vrng_below(&R, 31)] ^= 0x80; u[vrng_below(&R, 31)] ^= 0x80; u[31] ^= 0x80; vrng_bytes(&R, k, 32); rec_sm(k, u);
+    }
     /* scalars with every pattern of the five clamp bits */
     hexto(special[18], u); vrng_bytes(&R, u, 32);
     for (int pat = 0; pat < 32; pat += 1 + (pat % 3)) { vrng_bytes(&R, k, 32); k[0] = (unsigned char) ((k[0] & 0xf8) | (pat & 7)); k[31] = (unsigned char) ((k[31] & 0x3f) | ((pat >> 3) << 6)); rec_sm(k, u); }
